@@ -624,7 +624,9 @@ def mon_C04(blocks):
             age = b.t - cr(f)
             ide = a.cfg["idExpiry"]
             if b.ret != "sess" or not b.ss:
-                continue  # continuity is C01's
+                if ide != 0 and age < ide:
+                    out.append(Violation(b.idx, "an id younger than SessionIDExpiry stopped working: %s" % b.ret))
+                continue  # otherwise continuity is C01's
             if ide == 0 or age > ide:
                 rotation_check(b, out, f, v, "rotation of a due id")
                 if b.ss and (b.ss["us"] == "-") != (f["us"] == "-"):
@@ -1044,13 +1046,24 @@ def mon_C11(blocks):
     (a failed flush of a session that stays cached loses nothing and may be ignored); any failed load, user
     lookup, delete or listing makes the call fail; a failed load changes nothing."""
     out = []
+    last_failed = None
     limbo = False   # an earlier call reported a failure: what memory and store hold from then on was never acknowledged
     for b in blocks:
         a = b.ann
         k = b.tok[0]
         if b.restart:
             limbo = False
+            last_failed = None
         if not b.faulted:
+            # the application retries the call that failed: if the retry reports success, the change must be stored now
+            if last_failed is not None and k == "h" and b.line == last_failed and b.ret == "ok" and b.ss and b.tok[1] in ("set", "del"):
+                why = coherent(b.ss, b.store.get(_unq(b.ss["id"])), a.codec)
+                if why:
+                    out.append(Violation(b.idx, "the retry of %s after a failed save reported success but the store still lacks the change: %s" % (b.line, why)))
+                else:
+                    limbo = False
+            if k in ("h", "req", "end"):
+                last_failed = last_failed if k == "h" and b.line == last_failed else None
             continue
         if b.ret == "panic":
             out.append(Violation(b.idx, "%s panicked under a store failure" % b.line))
@@ -1065,6 +1078,7 @@ def mon_C11(blocks):
             continue
         if not success:
             limbo = True
+            last_failed = b.line if k == "h" else None
         if success and not limbo and any(e[0] == "save" for e in failed):
             getdel = k == "h" and b.tok[1] == "getdel"
             if b.ss and not getdel and (k == "req" or (k == "h" and b.tok[1] in MUTATORS)):
